@@ -462,6 +462,22 @@ def determinism_obligations(rep, modules=('yp_generator', 'yp_prolog_visitor', '
     rep.add_checked('compiler._compile_prolog_from_stream.deterministic.fresh_objects_per_call', not probs,
                     'not created in the call: ' + ', '.join(probs) if probs else '', 'ast', function='compiler._compile_prolog_from_stream',
                     witness=probs or None)
+    # the text that is returned is the code generator's result and nothing else: what the debug stream receives (object reprs with
+    # addresses - outside the statement) never becomes part of it
+    probs = []
+    rets = [n for n in (core.walk_own(fn) if fn else []) if isinstance(n, ast.Return)]
+    gens = [n for n in (core.walk_own(fn) if fn else []) if isinstance(n, ast.Call) and isinstance(n.func, ast.Attribute) and n.func.attr == 'generate']
+    gen_locals = {t.id for a in (core.walk_own(fn) if fn else []) if isinstance(a, ast.Assign) and a.value in gens
+                  for t in a.targets if isinstance(t, ast.Name)}
+    for r in rets:
+        v = r.value
+        if not (v in gens or (isinstance(v, ast.Name) and v.id in gen_locals
+                              and sum(1 for n in core.walk_own(fn) if isinstance(n, ast.Name) and n.id == v.id and isinstance(n.ctx, ast.Store)) == 1)):
+            probs.append('line %d: returns %s, not the result of <generator>.generate(..)' % (r.lineno, ast.unparse(v)[:50] if v is not None else 'None'))
+    if not rets:
+        probs.append('no return statement')
+    rep.add_checked('compiler._compile_prolog_from_stream.deterministic.returns_the_generated_text_only', not probs, '; '.join(probs), 'ast',
+                    function='compiler._compile_prolog_from_stream', witness=probs or None)
     # counters live on those per-call objects and start from constants
     for m, q in (('yp_prolog_visitor', 'YPPrologVisitor.__init__'), ('yp_generator', 'YPPrologCompiler.__init__'),
                  ('yp_generator', 'YPPythonCodeGenerator.__init__')):
@@ -646,6 +662,10 @@ def debug_noninterference_obligations(rep):
                             arg = ast.unparse(n.args[0]) if n.args else ''
                             if not any(arg == "'# ' + %s + '\\n'" % lv for lv in loopvars):
                                 probs.append('line %d: writes %s' % (n.lineno, arg))
+                        if isinstance(n, ast.Call) and ((isinstance(n.func, ast.Name) and n.func.id == 'print')
+                                                        or (isinstance(n.func, ast.Attribute) and n.func.attr in ('writelines', 'print'))):
+                            # any other way of producing output puts the message text out unchecked
+                            probs.append('line %d: output other than the per-line comment write: %s' % (n.lineno, ast.unparse(n)[:50]))
                         if isinstance(n, (ast.Assign, ast.AugAssign)) and any(isinstance(t, ast.Attribute) for t in
                                                                               (n.targets if isinstance(n, ast.Assign) else [n.target])):
                             probs.append('line %d: _debug changes object state' % n.lineno)
